@@ -26,6 +26,12 @@ pub fn run(cx: &mut Ctx) {
     import_dots(cx, &g);
     identifier_predicates(cx);
     parse_args_order(cx);
+    {
+        let rule = "C01.N1";
+        cx.rule(rule, "valid numeric literals are not rejected for leading zeros: only a decimal INTEGER with a non-zero value is (`007`); `00`, `0_0`, `007j`, `00.5`, `01e1` are valid Python and reach their token — read from the exits of lex_normal_number (shared with C04.N1 / C06.Z1)");
+        cx.floor(rule, 1);
+        crate::rules::c04::leading_zero_rule(cx, rule);
+    }
 }
 
 /// T1/T2: keyword table = extern keyword terminals = Tok variants = reference; operators likewise.
